@@ -331,6 +331,9 @@ def run(check, an: Analysis):
                    '__aenter__ proceeds without waiting exactly when free or already owned: '
                    '%s' % sorted(nowait))
     check_forced_close_tolerated(check, an, 'R')
+    # the kernel rules every suspending operation rests on (shared; see _scope)
+    from . import _scope as _kernel
+    _kernel.check_kernel_core(check, an)
     check.stats.update(an.stats())
 
 
